@@ -7,6 +7,9 @@ use serde_json::{json, Value};
 
 /// merge events into response items in the shape of the specification's `resp`
 pub fn items(evs: &[Ev]) -> Vec<Value> {
+    // a command that ran into the opcode budget may have produced an enormous response: the
+    // first events are enough to see that it differs from the specified one
+    let evs = if evs.len() > 3000 { &evs[..3000] } else { evs };
     let mut out: Vec<Value> = vec![];
     let mut cur: Option<String> = None;
     fn flush(out: &mut Vec<Value>, cur: &mut Option<String>) {
